@@ -24,9 +24,11 @@ class MP:
 
     def __init__(self, oid, fn, file, via, dst, src=None, init_seq=None, bypass=(),
                  init=None, keys=(), fail=None, plain=False, why="", min_guards=1, states=None,
-                 resume=True):
+                 resume=True, cut_calls=(), target=None):
         self.states = states
         self.resume = resume
+        self.cut_calls = cut_calls
+        self.target = target
         self.oid, self.fn, self.file = oid, fn, file
         self.via, self.dst, self.src = via, dst, src
         self.init_seq, self.bypass = init_seq, bypass
@@ -70,6 +72,8 @@ class PlainGraph:
                 fd.Key("var", "ret_", domain=self.rets.values(), label="ret_"),
                 fd.Key("retval", "$ret", label="$ret")]
         keys += list(extra_keys)
+        keys += [fd.Key("var", v["n"], domain=(0, 1), label=v["n"]) for v in fn.vars
+                 if v["n"].startswith("mythread_i_") or v["n"].startswith("mythread_j_")]
         self.g = fd.FD(prog, fn, keys, cg=cg, call_values=lambda c, s: rs.call_set(c, fn))
         self.g.value_hook = lambda n: rs._value(fn, n)
         st = self.g.make_state(**{"$ret": [machine.NO_RETURN_YET]})
@@ -152,6 +156,10 @@ def make_dst(m, f, dst):
             hit = set(rv) & vals
             return ("return %s" % sorted(hit)) if hit else None
         return pred
+    if kind == "exit":
+        def pred(node):
+            return "return" if node[0] == f.exit else None
+        return pred
     if kind == "retexpr":
         blocks = set()
         for b, i, e in f.iter_elems():
@@ -223,7 +231,7 @@ def check_fail_side(m, f, g_, fail_names):
 
 def evaluate(ck, prog, rule, table, floor=None):
     for ob in table:
-        f = prog.fn(ob.fn, ob.file)
+        f = prog.fn(ob.fn, ob.file, target=getattr(ob, "target", None))
         ck.saw_function(f)
         m = graph_for(prog, f, ob.keys, ob.init, ob.init_seq, ob.plain, getattr(ob, "resume", True))
         key = "%s:%s" % (rule, ob.oid)
@@ -279,7 +287,12 @@ def evaluate(ck, prog, rule, table, floor=None):
         if not src:
             raise AnalysisBroken("%s/%s: no source nodes" % (rule, ob.oid))
         dstp = make_dst(m, f, ob.dst)
-        path, hit = guard.cut_reach(m.g, src, cut, dstp)
+        cut_blocks = set()
+        if getattr(ob, "cut_calls", None):
+            for b_, i_, e_ in f.iter_elems():
+                if any(c.get("fn") in ob.cut_calls for c in ex.calls(e_, into_refs=False)):
+                    cut_blocks.add(b_.id)
+        path, hit = guard.cut_reach(m.g, src, cut, dstp, cut_blocks=cut_blocks)
         ok = path is None and not failmsg
         if path is not None:
             msg = ("%s: `%s` is reachable in %s from %s without passing %s; path %s" % (
@@ -311,7 +324,7 @@ def _spec_text(s):
 def _dst_text(d):
     if d[0] in ("ret", "retval"):
         return "return " + "/".join(str(x) for x in d[1])
-    return "%s %s" % (d[0], d[1])
+    return " ".join(str(x) for x in d)
 
 
 class Consume:
